@@ -1291,6 +1291,9 @@ pub enum FaultAction {
     ForceWkc(u16),
     /// All data bytes of the response are inverted.
     CorruptData,
+    /// Device `n` becomes absent (`present = false`) before this datagram is processed and stays
+    /// absent; the datagram and the rest of the frame see the new topology.
+    Unplug(usize),
 }
 
 #[derive(Debug, Clone, PartialEq, Eq)]
@@ -1302,7 +1305,10 @@ pub enum SimEvent {
         adp: u16,
         ado: u16,
         len: u16,
+        /// Working counter of the response as the MainDevice sees it.
         wkc: u16,
+        /// Working counter the devices produced (differs from `wkc` only under `ForceWkc`).
+        true_wkc: u16,
     },
     FrameLost {
         frame_seq: u64,
@@ -1391,6 +1397,8 @@ pub struct Segment {
     pub log_datagrams: bool,
     /// Time the last frame needed for the complete round trip.
     pub last_round_trip_ns: u64,
+    /// With no device connected, return the frame unprocessed instead of losing it.
+    pub loopback_when_empty: bool,
     frame_seq: u64,
     datagram_seq: u64,
 }
@@ -1419,6 +1427,7 @@ impl Segment {
             log_dropped: 0,
             log_datagrams: true,
             last_round_trip_ns: 0,
+            loopback_when_empty: false,
             frame_seq: 0,
             datagram_seq: 0,
         };
@@ -1486,6 +1495,33 @@ impl Segment {
         t
     }
 
+    /// Walk the topology with the current `present` flags: processing order, per device timing,
+    /// link state of all ports, round trip time. `None` if nothing is connected.
+    fn survey(&mut self) -> Option<(Vec<usize>, Vec<Option<Ctx>>)> {
+        let n = self.devices.len();
+        let mut order = Vec::with_capacity(n);
+        let mut ctxs: Vec<Option<Ctx>> = vec![None; n];
+        if n == 0 || !self.devices[0].present {
+            return None;
+        }
+        let t0 = self.now_ns.wrapping_add(self.link_delay_ns[0]);
+        let t_end = self.walk(0, t0, &mut order, &mut ctxs);
+        self.last_round_trip_ns = t_end.wrapping_add(self.link_delay_ns[0]).wrapping_sub(self.now_ns);
+        for d in 0..n {
+            let mut open = [false; 4];
+            if ctxs[d].is_some() {
+                open[0] = true;
+                for port in 1..4u8 {
+                    if let Some(c) = self.child_on(d, port) {
+                        open[usize::from(port)] = self.devices[c].present;
+                    }
+                }
+            }
+            self.devices[d].ports_open = open;
+        }
+        Some((order, ctxs))
+    }
+
     /// Devices reachable right now, in processing order.
     pub fn reachable(&self) -> Vec<usize> {
         let mut order = Vec::new();
@@ -1547,30 +1583,16 @@ impl Segment {
         out[6] |= 0x02;
 
         // Topology walk: processing order, link state and timing for this frame.
-        let n = self.devices.len();
-        let mut order = Vec::with_capacity(n);
-        let mut ctxs: Vec<Option<Ctx>> = vec![None; n];
-        if n > 0 && self.devices[0].present {
-            let t0 = self.now_ns.wrapping_add(self.link_delay_ns[0]);
-            let t_end = self.walk(0, t0, &mut order, &mut ctxs);
-            self.last_round_trip_ns = t_end.wrapping_add(self.link_delay_ns[0]).wrapping_sub(self.now_ns);
-        } else {
-            // Nothing connected: no response at all.
+        let Some((mut order, mut ctxs)) = self.survey() else {
+            // Nothing connected: no response at all - unless the wire is configured to loop the
+            // frame back unprocessed (a NIC whose link partner mirrors frames), which is how a
+            // MainDevice gets to see "zero SubDevices".
+            if self.loopback_when_empty {
+                return Some(out);
+            }
             self.push_event(SimEvent::FrameLost { frame_seq });
             return None;
-        }
-        for d in 0..n {
-            let mut open = [false; 4];
-            if ctxs[d].is_some() {
-                open[0] = true;
-                for port in 1..4u8 {
-                    if let Some(c) = self.child_on(d, port) {
-                        open[usize::from(port)] = self.devices[c].present;
-                    }
-                }
-            }
-            self.devices[d].ports_open = open;
-        }
+        };
 
         if frame[12..14] != [0x88, 0xA4] || frame.len() < 16 {
             return Some(out);
@@ -1616,6 +1638,21 @@ impl Segment {
             if action == FaultAction::LoseFrame {
                 self.push_event(SimEvent::FrameLost { frame_seq });
                 return None;
+            }
+            if let FaultAction::Unplug(i) = action {
+                if let Some(d) = self.devices.get_mut(i) {
+                    d.present = false;
+                }
+                match self.survey() {
+                    Some((o, c)) => {
+                        order = o;
+                        ctxs = c;
+                    }
+                    None => {
+                        self.push_event(SimEvent::FrameLost { frame_seq });
+                        return None;
+                    }
+                }
             }
             let skip = match action {
                 FaultAction::SkipDevice(i) => Some(i),
@@ -1686,6 +1723,7 @@ impl Segment {
                 }
             }
 
+            let true_wkc = wkc;
             match action {
                 FaultAction::ForceWkc(w) => wkc = w,
                 FaultAction::CorruptData => data.iter_mut().for_each(|b| *b = !*b),
@@ -1706,6 +1744,7 @@ impl Segment {
                     ado,
                     len: len as u16,
                     wkc,
+                    true_wkc,
                 });
             }
             self.push_events(&mut events);
@@ -1789,10 +1828,12 @@ impl std::fmt::Display for SimEvent {
                 ado,
                 len,
                 wkc,
+                true_wkc,
             } => write!(
                 f,
-                "frame {frame_seq} dg {seq}: {} adp {adp:#06x} ado {ado:#06x} len {len} -> wkc {wkc}",
-                cmd::name(*c)
+                "frame {frame_seq} dg {seq}: {} adp {adp:#06x} ado {ado:#06x} len {len} -> wkc {wkc}{}",
+                cmd::name(*c),
+                if wkc != true_wkc { format!(" (devices produced {true_wkc})") } else { String::new() }
             ),
             SimEvent::FrameLost { frame_seq } => write!(f, "frame {frame_seq} lost"),
             SimEvent::Fault { seq, action } => write!(f, "dg {seq}: fault {action:?}"),
